@@ -72,7 +72,7 @@ func init() {
 }
 
 // harness functions named verif* that are ordinary Go and must be executed, not intercepted
-var verifExecuted = map[string]bool{"verifVerdict": true, "verifWarm": true, "verifWarmN": true, "verifLangSel": true, "verifC12Op": true, "verifHex": true, "verifToHex": true, "verifSentence12": true, "verifRespell": true}
+var verifExecuted = map[string]bool{"verifVerdict": true, "verifWarm": true, "verifWarmN": true, "verifLangSel": true, "verifC12Op": true, "verifTokenNE": true, "verifHex": true, "verifToHex": true, "verifSentence12": true, "verifRespell": true}
 
 func constString(v Value, what string) string {
 	s, ok := v.(string)
